@@ -261,6 +261,14 @@ def inverse1d(ctx, rng, idx):
             exp = [ri * rr, ws + (ui - ws) / rr, np.full(n, pe)]
     ctx.describe(bc=name, dir=d, gamma=gam, params=par, interior=[ri[:4], ui[:4], pi[:4]], expected=[e[:4] for e in exp])
     got = model.namedBC(name, d, [ri.copy(), ui.copy(), pi.copy()], par)
+    # the same interior states one by one as python floats / numpy scalars (this is how fvm1d calls the conditions)
+    for j in rng.integers(0, n, 4):
+        for cast in (float, np.float64):
+            gj = model.namedBC(name, d, [cast(ri[j]), cast(ui[j]), cast(pi[j])], par)
+            for i in range(3):
+                a_, b_ = float(np.asarray(gj[i]).ravel()[0]), float(np.broadcast_to(_arr(got[i]), (n,))[j])
+                if np.isfinite(b_):
+                    ctx.close("bc-scalar-call", abs(a_ - b_) / (abs(b_) + (np.sqrt(gam * pi[j] / ri[j]) if i == 1 else 0) + 1e-300), 1e-12, "inverse1d/%s/scalar-call-differs-from-array-call" % name, {"type": cast.__name__}, cls="inverse:1d")
     sc = [ri, np.abs(ui) + np.sqrt(gam * pi / ri), pi]
     for i, nm in enumerate(["density", "velocity", "pressure"]):
         e = np.asarray(exp[i], float)
